@@ -31,6 +31,7 @@ import (
 	"os"
 	"runtime/debug"
 	"sort"
+	"regexp"
 	"strconv"
 	"strings"
 	"time"
@@ -386,7 +387,7 @@ func c11colName(n int) string {
 
 // the harness's own reading of the property: which SetRow calls must be rejected
 func c11expectReject(cell string, items []c11Item, o c11Opts, lastRow int) (col, row int, reject bool, why string) {
-	col, row, ok := specA1(cell)
+	col, row, ok := c11specA1(cell)
 	if !ok {
 		// anything CellNameToCoordinates accepts beyond strict A1 is C20's business; the generator only uses strict or clearly invalid references
 		return 0, 0, true, "bad-ref"
@@ -577,8 +578,8 @@ func (c *c11Case) exec(line string) {
 		}
 		if err == nil {
 			c.merges++
-			c1, r1, ok1 := specA1(tl)
-			c2, r2, ok2 := specA1(br)
+			c1, r1, ok1 := c11specA1(tl)
+			c2, r2, ok2 := c11specA1(br)
 			if ok1 && ok2 {
 				c.mrects = append(c.mrects, [4]int{min(c1, c2), min(r1, r2), max(c1, c2), max(r1, r2)})
 			}
@@ -1489,4 +1490,27 @@ func runC11(r *Run, rng *Rng, replay string) {
 		r.Sample(s)
 	}
 	r.Notes = append(r.Notes, fmt.Sprintf("volumes (bytes of long-string payload): %v; StreamChunkSize=%d", vols, chunk))
+}
+
+var c11a1Strict = regexp.MustCompile(`^\$?([A-Za-z]+)\$?([0-9]+)$`)
+
+// c11specA1: strict reading of "A1-style reference inside the grid" (same rule as the C20 harness).
+func c11specA1(s string) (int, int, bool) {
+	m := c11a1Strict.FindStringSubmatch(s)
+	if m == nil {
+		return 0, 0, false
+	}
+	letters, digits := strings.ToUpper(m[1]), strings.TrimLeft(m[2], "0")
+	if len(letters) > 3 || len(digits) == 0 || len(digits) > 7 {
+		return 0, 0, false
+	}
+	col := 0
+	for _, ch := range letters {
+		col = col*26 + int(ch-'A'+1)
+	}
+	row, _ := strconv.Atoi(digits)
+	if col < 1 || col > 16384 || row < 1 || row > 1048576 {
+		return 0, 0, false
+	}
+	return col, row, true
 }
